@@ -26,6 +26,10 @@ impl Profile {
     pub fn general() -> Self {
         Profile { rules: (3, 7), depth: 3, stack_ops: 0, predicates: 2, counted: 2, unicode: true, kinds: true, ws: None, comment: None, shadow: true, skip_rule_kinds_k1: false }
     }
+    /// mutually recursive grammars for the option variants (no counted repetition: finding K5)
+    pub fn recursive() -> Self {
+        Profile { rules: (3, 6), depth: 3, stack_ops: 1, predicates: 1, counted: 0, unicode: false, kinds: true, ws: None, comment: None, shadow: false, skip_rule_kinds_k1: false }
+    }
     pub fn stack() -> Self {
         Profile { rules: (3, 6), depth: 3, stack_ops: 6, predicates: 3, counted: 1, unicode: false, kinds: true, ws: None, comment: Some(false), shadow: false, skip_rule_kinds_k1: false }
     }
@@ -447,4 +451,126 @@ pub fn feature_counts(g: &Grammar, out: &mut std::collections::BTreeMap<String, 
     if rec {
         bump("grammar.recursive");
     }
+}
+
+// ---------------------------------------------------------------------------------------
+// deliberately ill-formed grammars (C11)
+
+fn map_expr(e: &Expr, f: &mut dyn FnMut(&Expr) -> Option<Expr>) -> Expr {
+    if let Some(r) = f(e) {
+        return r;
+    }
+    let b = |x: &Expr, f: &mut dyn FnMut(&Expr) -> Option<Expr>| Box::new(map_expr(x, f));
+    match e {
+        Expr::PosPred(x) => Expr::PosPred(b(x, f)),
+        Expr::NegPred(x) => Expr::NegPred(b(x, f)),
+        Expr::Seq(l, r) => {
+            let l2 = b(l, f);
+            Expr::Seq(l2, b(r, f))
+        }
+        Expr::Choice(l, r) => {
+            let l2 = b(l, f);
+            Expr::Choice(l2, b(r, f))
+        }
+        Expr::Opt(x) => Expr::Opt(b(x, f)),
+        Expr::Rep(x) => Expr::Rep(b(x, f)),
+        Expr::RepOnce(x) => Expr::RepOnce(b(x, f)),
+        Expr::RepExact(x, n) => Expr::RepExact(b(x, f), *n),
+        Expr::RepMin(x, n) => Expr::RepMin(b(x, f), *n),
+        Expr::RepMax(x, n) => Expr::RepMax(b(x, f), *n),
+        Expr::RepMinMax(x, n, m) => Expr::RepMinMax(b(x, f), *n, *m),
+        Expr::Push(x) => Expr::Push(b(x, f)),
+        Expr::RestoreOnErr(x) => Expr::RestoreOnErr(b(x, f)),
+        other => other.clone(),
+    }
+}
+
+fn count_nodes(e: &Expr) -> usize {
+    1 + e.children().iter().map(|c| count_nodes(c)).sum::<usize>()
+}
+
+/// One mutation of a valid grammar that tends to make it ill-formed.
+pub fn mutate_grammar(rng: &mut Rng, g: &Grammar) -> (String, String) {
+    let mut rules = g.raw.clone();
+    let ri = rng.below(rules.len());
+    let target = rng.below(count_nodes(&rules[ri].expr));
+    let kind = rng.below(7);
+    let self_name = rules[ri].name.clone();
+    let mut i = 0usize;
+    let label = ["wrap_in_star", "wrap_in_opt_then_star", "drop_guarding_literal", "redirect_to_self", "reorder_alternatives", "make_alternative_unfailing", "wrap_in_neg_pred_star"][kind];
+    let new = map_expr(&rules[ri].expr.clone(), &mut |e: &Expr| {
+        let here = i == target;
+        i += 1;
+        if !here {
+            return None;
+        }
+        Some(match kind {
+            0 => Expr::Rep(Box::new(e.clone())),
+            1 => Expr::Rep(Box::new(Expr::Opt(Box::new(e.clone())))),
+            2 => match e {
+                Expr::Seq(_, r) => (**r).clone(),
+                other => Expr::Opt(Box::new(other.clone())),
+            },
+            3 => Expr::Ident(self_name.clone()),
+            4 => match e {
+                Expr::Choice(l, r) => Expr::Choice(r.clone(), l.clone()),
+                other => Expr::Choice(Box::new(Expr::Str(String::new())), Box::new(other.clone())),
+            },
+            5 => Expr::Choice(Box::new(Expr::Opt(Box::new(e.clone()))), Box::new(Expr::Str("zz".into()))),
+            _ => Expr::Rep(Box::new(Expr::NegPred(Box::new(e.clone())))),
+        })
+    });
+    rules[ri].expr = new;
+    (label.to_string(), print_grammar(&rules))
+}
+
+/// Hand-written ill-formed shapes, each instantiated with small variations.
+pub fn ill_formed_catalogue() -> Vec<(String, String)> {
+    let mut v: Vec<(&str, String)> = vec![];
+    let term = ["\"a\"", "'a'..'z'", "ANY", "^\"ab\""];
+    for t in term {
+        v.push(("left_recursion.direct", format!("a = {{ a ~ {t} }}")));
+        v.push(("left_recursion.direct_choice", format!("a = {{ {t} | a ~ {t} }}")));
+        v.push(("left_recursion.through_optional", format!("a = {{ b? ~ a ~ {t} }}\nb = {{ {t} }}")));
+        v.push(("left_recursion.indirect", format!("a = {{ b ~ {t} }}\nb = {{ c | {t} }}\nc = {{ a ~ {t} }}")));
+        v.push(("left_recursion.through_predicate", format!("a = {{ !{t} ~ a }}")));
+        v.push(("left_recursion.through_pos_predicate", format!("a = {{ &{t} ~ a ~ {t} }}")));
+        v.push(("left_recursion.through_silent", format!("a = {{ s ~ {t} }}\ns = _{{ a? ~ \"\" ~ a }}")));
+        v.push(("left_recursion.through_push", format!("a = {{ PUSH(a) ~ {t} }}")));
+        v.push(("left_recursion.through_star", format!("a = {{ {t}* ~ a }}")));
+        v.push(("left_recursion.optional_self", format!("a = {{ b ~ \"x\" }}\nb = {{ a? ~ {t} }}")));
+        v.push(("repetition.star_of_star", format!("a = {{ ({t}*)* }}")));
+        v.push(("repetition.star_of_optional", format!("a = {{ ({t}?)* }}")));
+        v.push(("repetition.plus_of_optional", format!("a = {{ ({t}?)+ }}")));
+        v.push(("repetition.star_of_neg_pred", format!("a = {{ (!{t})* }}")));
+        v.push(("repetition.star_of_pos_pred", format!("a = {{ (&{t})* }}")));
+        v.push(("repetition.counted_of_optional", format!("a = {{ ({t}?){{2}} }}")));
+        v.push(("repetition.min_of_star", format!("a = {{ ({t}*){{1,}} }}")));
+        v.push(("repetition.star_of_nullable_rule", format!("a = {{ b* }}\nb = {{ {t}? }}")));
+        v.push(("repetition.star_of_nullable_seq", format!("a = {{ ({t}? ~ {t}*)* }}")));
+        v.push(("choice.unfailing_first", format!("a = {{ {t}? | \"b\" }}")));
+        v.push(("choice.unfailing_star_first", format!("a = {{ {t}* | \"b\" }}")));
+        v.push(("choice.unfailing_middle", format!("a = {{ \"x\" | {t}? | \"b\" }}")));
+        v.push(("choice.unfailing_rule", format!("a = {{ b | \"c\" }}\nb = {{ {t}* }}")));
+        v.push(("skip.whitespace_optional", format!("a = {{ \"a\" }}\nWHITESPACE = {{ {t}? }}")));
+        v.push(("skip.whitespace_star", format!("a = {{ \"a\" }}\nWHITESPACE = {{ {t}* }}")));
+        v.push(("skip.comment_predicate", format!("a = {{ \"a\" }}\nCOMMENT = {{ !{t} }}")));
+        v.push(("skip.comment_optional", format!("a = {{ \"a\" }}\nCOMMENT = _{{ {t}? }}")));
+        v.push(("zero.exact", format!("a = {{ {t}{{0}} }}")));
+        v.push(("zero.max", format!("a = {{ {t}{{,0}} }}")));
+    }
+    v.push(("repetition.star_of_empty_string", "a = { (\"\")* }".into()));
+    v.push(("repetition.star_of_soi", "a = { (SOI)* }".into()));
+    v.push(("repetition.star_of_eoi", "a = { (EOI)* }".into()));
+    v.push(("repetition.star_of_push_empty", "a = { (PUSH(\"\"))* }".into()));
+    v.push(("repetition.plus_of_empty_string", "a = { (\"\")+ }".into()));
+    v.push(("choice.empty_string_first", "a = { \"\" | \"a\" }".into()));
+    v.push(("skip.whitespace_empty", "a = { \"a\" }\nWHITESPACE = { \"\" }".into()));
+    v.push(("skip.whitespace_soi", "a = { \"a\" }\nWHITESPACE = { SOI }".into()));
+    // well-formed relatives of the above, as negative controls
+    v.push(("control.right_recursion", "a = { \"x\" ~ a | \"y\" }".into()));
+    v.push(("control.star_of_seq", "a = { (\"a\" ~ \"b\"?)* }".into()));
+    v.push(("control.choice_last_unfailing", "a = { \"a\" | \"b\"? }".into()));
+    v.push(("control.guarded_indirect", "a = { \"(\" ~ b ~ \")\" }\nb = { a | \"x\" }".into()));
+    v.into_iter().map(|(c, t)| (c.to_string(), t)).collect()
 }
